@@ -283,7 +283,7 @@ def run_unit(spec, unit, scratch, tier="quick", trace=False):
         return res
     if trace:
         res["raw_results"] = results
-    failed, unwind_fail, unknown = [], [], []
+    failed, unwind_fail, unknown, envgap = [], [], [], []
     nob = nok = 0
     canary = None
     names = []
@@ -310,6 +310,11 @@ def run_unit(spec, unit, scratch, tier="quick", trace=False):
                 unwind_fail.append(ent)
             elif st != "FAILURE":
                 unknown.append(ent)
+            elif "undefined function should be unreachable" in desc:
+                # DFCC gives every function without a body `assert(false); assume(false)`:
+                # the code reached a function outside the modelled environment. That is a gap
+                # of the environment model (undecided, exit 2), not a property violation.
+                envgap.append(ent)
             else:
                 failed.append(ent)
     res["obligations"], res["discharged"], res["canary"] = nob, nok, canary
@@ -341,6 +346,9 @@ def run_unit(spec, unit, scratch, tier="quick", trace=False):
     if failed:
         res["status"] = "violated"
         res["reason"] = "; ".join("%s (%s)" % (f["obligation"], f["description"][:80]) for f in failed[:4])
+        return res
+    if envgap:
+        res["reason"] = "reaches a function outside the modelled environment (undecided): " + ", ".join(sorted({e["obligation"].split(".")[0] for e in envgap}))
         return res
     if unknown:
         res["reason"] = "%d obligations reported %s by cbmc (undecided): %s" % (len(unknown), unknown[0]["status"], unknown[0]["obligation"])
